@@ -1,0 +1,17 @@
+//go:build verif
+
+package analyzer
+
+// VerifTedAnalyzer returns the APTED analyzer exactly as NewCloneDetector
+// builds it for the given cost model type ("default", "python", "weighted"),
+// starting from DefaultCloneDetectorConfig. Only built with the verif tag.
+func VerifTedAnalyzer(costModelType string, ignoreLiterals, ignoreIdentifiers bool) *APTEDAnalyzer {
+	cfg := DefaultCloneDetectorConfig()
+	cfg.CostModelType = costModelType
+	cfg.IgnoreLiterals = ignoreLiterals
+	cfg.IgnoreIdentifiers = ignoreIdentifiers
+	return NewCloneDetector(cfg).analyzer
+}
+
+// VerifTedCostModel exposes the cost model of an analyzer.
+func VerifTedCostModel(a *APTEDAnalyzer) CostModel { return a.costModel }
